@@ -99,6 +99,13 @@ def main(argv):
     pre.pop('replay', None)
 
     stop_early = os.environ.get('VERIF_STOP_ON_VIOLATION') == '1'
+    _open_ids = {k['id'] for k in load_known() if k.get('property') == prop and k.get('status') == 'open'}
+
+    def _is_new(v):
+        try:
+            return h.finding(v['unit'], v['input'], v['real'], v['exp']) not in _open_ids
+        except Exception:
+            return True
     ctx = mp.get_context('spawn')
     with cf.ProcessPoolExecutor(max_workers=NPROC, mp_context=ctx, initializer=_pool_init,
                                 initargs=(True,)) as ex:
@@ -144,7 +151,7 @@ def main(argv):
                             open_units[i] += 1
                 if open_units[i] == 0:
                     units_done += 1
-            if stop_early and violations:
+            if stop_early and any(_is_new(v) for v in violations):
                 # seeded-change / mutant runs only need to know THAT the check raises the alarm
                 for f in list(futs):
                     f.cancel()
